@@ -1,4 +1,5 @@
 """images.json: case descriptions, builder, snapshots, reference document model."""
+import copy
 import random
 
 from hypothesis import strategies as st
@@ -125,6 +126,24 @@ def build_images(desc, plan=0, version="1.2"):
                     if img.path == entry["rec"]["path"]:
                         im.images[variant][arch].remove(img)
     return im
+
+
+def modify_images(desc, im):
+    """a valid change of an EXISTING manifest through the public attributes of the images filed in it; returns the new description"""
+    d = copy.deepcopy(desc)
+    for e in d["images"]:
+        r = e["rec"]
+        r["size"], r["mtime"], r["bootable"], r["volume_id"] = r["size"] + 1, r["mtime"] + 1, not r["bootable"], "relabelled"
+    seen = set()
+    for variant in im.images:
+        for arch in im.images[variant]:
+            for img in im.images[variant][arch]:
+                if id(img) not in seen:
+                    seen.add(id(img))
+                    img.size, img.mtime, img.bootable, img.volume_id = img.size + 1, img.mtime + 1, not img.bootable, "relabelled"
+    d["compose"]["respin"] += 1
+    im.compose.respin = d["compose"]["respin"]
+    return d
 
 
 def live(desc):
